@@ -96,6 +96,7 @@ func ParseFile(inputPath string) (areas []textArea, err error) {
 					InjectTag:  tag,
 				}
 				areas = append(areas, area)
+				break // 一个字段只注入一次: 同一字段的多条 @tag 注释会得到相同的区间, 第二次注入时偏移已失效
 			}
 		}
 	}
